@@ -205,6 +205,46 @@ func runSched(name string) *result {
 			r.hangFail(wd, wd.hangs[0], map[string]string{"schedule": name})
 		}
 		r.perTaskOracle(wd, complete)
+	case "haswork":
+		// the dispatcher is parked between the two reads of hasWork the first time it gets there.  With the reads in the
+		// code's order (isRunning first) that is only after the Shutdown; with the reads swapped it is the very first look
+		// (pending == 0), before the Submit and the Shutdown — and the accepted task would be lost.
+		wd := newWorld(1, false)
+		defer unpark(wd.pool)
+		p := parkHasWork(wd.pool)
+		wd.start(bound)
+		waitChan(p.entered, 100*time.Millisecond)
+		wd.submit(body{})
+		wd.shutdown(bound)
+		close(p.release)
+		complete := wd.waitComplete(bound)
+		zero := complete && wd.waitZero(shortBound)
+		out = wd.outcome(complete, zero)
+		if len(wd.hangs) > 0 {
+			r.hangFail(wd, wd.hangs[0], map[string]string{"schedule": name})
+		}
+		r.perTaskOracle(wd, complete && zero)
+	case "foreign":
+		// two foreign goroutines wait on the pool's exported queue (Queue.WaitSizeIsAbove) during the whole life cycle
+		wd := newWorld(1, false)
+		defer unpark(wd.pool)
+		obs := observePop(any(wd.pool.Queue))
+		wd.start(bound)
+		obs.settled(1)
+		foreignWaiters(wd, 2)
+		n := obs.hits.Load()
+		wd.submit(body{})
+		ok := wd.waitZero(bound)
+		obs.settled(n + 1)
+		time.Sleep(20 * time.Millisecond)
+		ok = ok && wd.shutdown(bound)
+		complete := ok && wd.waitComplete(bound)
+		zero := ok && wd.waitZero(shortBound)
+		out = wd.outcome(complete, zero)
+		if len(wd.hangs) > 0 {
+			r.hangFail(wd, wd.hangs[0], map[string]string{"schedule": name, "foreign-waiters": "2"})
+		}
+		r.perTaskOracle(wd, complete)
 	case "start-race":
 		// A Start call (A) is parked in its window while another caller restarts the pool and shuts it down again:
 		// A must never wait for that shutdown while holding the pool lock.
@@ -255,6 +295,15 @@ func runSched(name string) *result {
 	r.nontriv = "sched:" + name
 
 	return r
+}
+
+// foreignWaiters parks k goroutines in Queue.WaitSizeIsAbove on the pool's exported queue (a legal use of the queue); they
+// are woken by every broadcast on elementAdded and go back to sleep; they are never released (leaked with the case).
+func foreignWaiters(wd *world, k int) {
+	for i := 0; i < k; i++ {
+		go wd.pool.Queue.WaitSizeIsAbove(1 << 30)
+	}
+	time.Sleep(20 * time.Millisecond)
 }
 
 // runBusy: all workers are inside a task when Shutdown is called; the tasks then read IsRunning and submit.
@@ -379,8 +428,9 @@ func runCase(c runCfg) *result {
 	r.count("mode:" + c.mode)
 	r.count(fmt.Sprintf("workers:%d", c.w))
 	r.count(fmt.Sprintf("cancel:%v", c.cancel))
+	label := c.mode
 	hung := func(what string) *result {
-		r.hangFail(wd, what, map[string]string{"mode": c.mode})
+		r.hangFail(wd, what, map[string]string{"mode": label})
 		r.emitTrace(wd, false)
 		r.perTaskOracle(wd, false)
 
@@ -391,6 +441,11 @@ func runCase(c runCfg) *result {
 	}
 	if c.mode == "busy" {
 		return runBusy(r, wd, c, hung)
+	}
+	if c.mode == "foreign" {
+		// like drain, with one or two foreign goroutines asleep on the queue's elementAdded condition
+		foreignWaiters(wd, 1+int(c.seed%2))
+		c.mode = "drain"
 	}
 	for round := 0; round < c.rounds; round++ {
 		var gate chan struct{}
